@@ -14,7 +14,9 @@
 (* kind in a configuration).  A work item is accepted by a listening       *)
 (* server, runs for its duration and finishes by itself -- or is cut when  *)
 (* its server gives up waiting at the deadline.  Shutdown fans out to all  *)
-(* servers and returns when every server is done.                          *)
+(* servers and returns when every server is done; then the process exits.  *)
+(* A kind written "k~2" is a second listener of kind k on the same port    *)
+(* of another local address.                                               *)
 (*                                                                         *)
 (* GrpcIgnoresDeadline = TRUE is the deviation of the pinned code          *)
 (* (gRPCServer.Shutdown calls GracefulStop and never looks at its          *)
@@ -27,6 +29,9 @@ CONSTANTS
     KindOrder,            \* sequence of all server kinds, e.g. <<"http","https","tcp","tcp+sni","grpc","https+tcp+sni">>
     DurOrder,             \* sequence of duration classes, e.g. <<"short","long","inf">>
     Dur,                  \* duration class -> ticks (-1 = never ends)
+    TunnelKinds,          \* kinds that carry raw TCP tunnels: only they can hold "mute" work -- a tunnel whose
+                          \* client has sent EOF while the upstream neither answers nor closes
+    GrpcKinds,            \* the kinds served by a gRPC server
     MaxServers,           \* size of a configuration
     MaxItems,             \* work items per server
     MaxStart,             \* shutdown starts at clock 0..MaxStart
@@ -74,6 +79,7 @@ Canonical(k, d) ==
 \* a listener accepts a connection / request / stream
 Accept(k, d) ==
     /\ listening[k]
+    /\ d = "mute" => k \in TunnelKinds
     /\ Cardinality(ItemsOf(k)) < MaxItems
     /\ Canonical(k, d)
     /\ items' = Append(items, [srv |-> k, dur |-> d, at |-> clock, left |-> Dur[d], st |-> "run"])
@@ -98,7 +104,7 @@ Drain(k) ==
     /\ srvdone' = [srvdone EXCEPT ![k] = TRUE]
     /\ UNCHANGED <<kinds, clock, phase, tstart, tret, listening, items>>
 
-ObeysDeadline(k) == ~(k = "grpc" /\ GrpcIgnoresDeadline)
+ObeysDeadline(k) == ~(k \in GrpcKinds /\ GrpcIgnoresDeadline)
 
 \* the wait is over: the server stops waiting for whatever is still open
 Deadline(k) ==
@@ -162,6 +168,10 @@ ShortCompletes ==
         (~Never(items[i].dur) /\ phase # "running" /\ Due(items[i]) < tstart + W) =>
             /\ items[i].st # "cut"
             /\ phase = "returned" => items[i].st = "done"
+
+\* when shutdown has returned the process exits: nothing may still count on running
+NothingRunsAtReturn ==
+    phase = "returned" => \A i \in DOMAIN items : items[i].st # "run"
 
 \* shutdown returns within the wait plus slack, whatever is still open
 BoundedReturn ==
